@@ -277,6 +277,11 @@ fn parse_digits(s: &[u8]) -> Option<u32> {
 
 fn parse_delta(prev_token: &Token, s: &[u8]) -> Option<(u32, u8)> {
     if let Token::Digits(n) | Token::Delta(n, _) = prev_token {
+        // A delta is decoded as a plain number, so a zero-padded token cannot be one.
+        if s.starts_with(b"0") {
+            return None;
+        }
+
         let m = parse_u32(s).ok()?;
 
         if m >= *n {
